@@ -36,6 +36,7 @@ EXPLANATION = (
     "lie under expect_phi_plus (and role == RECV)."
     ' C10.E: the gate of every correction-emitting site is decided as an implication (helper predicates inlined, all valuations of its atoms, both roles). C10.X: sdk_epr_keep is executed abstractly for every combination of post routine / sequential / communication qubits / role: exactly one correction mechanism is enabled. C10.Z: no truthiness test on an int-typed value.'
     " C10.T interprets the correction emitter twice on one persistent builder object with two different qubit registers and judges the second run (a command object kept from an earlier call carries that call's register). C10.K: nothing kept for later calls depends on an argument of the first call."
+    ' C10.M executes rotation_to_basis / basis_to_rotation for all bases and measurement_outcome for 4 Bell states x 6 bases x both raw outcomes x post-processing on / off, and for unequal local / remote bases.'
 )
 LEVEL_TEXT = (
     "Static analysis, partial: correction table, post-processing table (18 entries), correction target and gating are decided at every "
